@@ -6,6 +6,9 @@ import GivaroModel.Model.PrimesPower
 import GivaroModel.Model.PrimesFactor
 import GivaroModel.Model.PrimesMisc
 import GivaroModel.Model.PrimesContainers
+import GivaroModel.Model.PrimesMR
+import GivaroModel.Model.PrimesErat
+import GivaroModel.Model.PrimesRho
 import GivaroModel.Spec.PrimesSpec
 -- @driver-mode primes Driver.Primes.primesLine
 namespace Driver.Primes
@@ -175,6 +178,56 @@ def primesLine (line : String) : String :=
       | "lehmannb", [n], [v] =>
         let specOk := if n < 2 then v == 0 else if n ≤ 3 then v == 1 else (v == 0 || v == 1)
         primesVerdict line specOk true "-"
+      | "pollards", [n, loops, _seed], k :: rest =>
+        -- Pollard(gen, g, n, loops) right after Integer::seeding(seed), with the start values of the (re)tries recomputed by the harness:
+        -- the rho iteration itself is modelled (Model/PrimesRho.lean) and compared exactly; the specification is that of `pollard`
+        if rest.length != k.toNat + 1 || loops < 0 then "BAD pollards | " ++ line else
+        let ys := rest.take k.toNat
+        let g := rest.getD k.toNat 0
+        let specOk := if n < 3 || primeI n then g == n
+          else if loops == 0 then chkFactor n g
+          else decide (g ≠ 0) && n % g == 0 && decide (1 ≤ g)
+        match pollardStarts ispD 30000000 n loops.toNat ys with
+        | none => if specOk then "PRE" else primesVerdict line false true "-"      -- more retries than start values supplied
+        | some m => primesVerdict line specOk (m == g) (hexInt m)
+      | "factorl", [n, loops], [f] =>
+        -- factor(r, n, loops): the cascades are deterministic; with loops ≠ 0 the rho search may give up (1 or n) on a cofactor without
+        -- prime factor ≤ 97: then only "a positive divisor" is promised (Pollard's guards: n < 3 and primes are returned as they are)
+        let m := factor (fun _ => f) n
+        let small := Int.gcd n 223092870 != 1 || Int.gcd n 10334565887047481278774629361 != 1
+        let specOk := if loops == 0 || small then chkFactor n f
+          else if n < 3 || primeI n then f == n else decide (1 ≤ f) && n % f == 0
+        primesVerdict line specOk (m == f) (hexInt m)
+      | "iffactorprimel", [n, loops], [f] =>
+        let m := iffactorprime ispD (fun _ _ => f) (fun _ => f) (n.toNat + 2) n
+        -- bounded loops: the partial contract -- a divisor of n (or Lenstra's failure value -1 after Pollard gave up); a prime when loops = 0
+        let specOk := if loops == 0 then chkPrimeFactor n f else f == -1 || (decide (f ≠ 0) && n % f == 0)
+        primesVerdict line specOk (m == some f) (showOpt m)
+      | "millers", [n, _seed], [a, v] =>
+        -- Miller(g, n) right after Integer::seeding(seed); `a` = 2 + (first mpz_urandomm(n-3) of a state seeded alike), recomputed by the
+        -- harness.  Specification (Props/C12MR.lean): guards; a prime passes; the base is in [2, n-2]; for odd n the answer is the strong
+        -- test to base a (Spec.mrBase, written independently of the model); model: millerBase, compared exactly
+        if n ≥ (mrLimit : Int) then "PRE" else
+        let m := millerBase n a
+        let specOk :=
+          if n < 2 then v == 0 else if n ≤ 3 then v == 1 else
+          let N := n.toNat
+          let ds := oddPart (Nat.log2 N + 1) (N - 1) 0
+          (v == 0 || v == 1) && decide (2 ≤ a ∧ a ≤ n - 2) && (!primeI n || v == 1) &&
+            (N % 2 == 0 || (v == 1) == mrBase N ds.1 ds.2 a.toNat)
+        primesVerdict line specOk (m == v) (hexInt m)
+      | "lehmanns", [n, _seed], [a, r, v] =>
+        -- test_Lehmann(g, r, n) and Lehmann(g, n), each right after Integer::seeding(seed); `a` = 1 + mpz_urandomm(n-1) recomputed.
+        -- Specification: r = a^((n-1)/2) mod n; for a prime only 1 and n-1 come out; Lehmann = [r = n-1] behind the guards
+        if n ≥ (mrLimit : Int) then "PRE" else
+        if n < 2 then primesVerdict line (v == 0) (lehmannBase n a == v) (hexInt (lehmannBase n a)) else
+        let N := n.toNat
+        let pw := (powModNat a.toNat ((N - 1) / 2) N : Int)
+        let specOk := decide (1 ≤ a ∧ a ≤ n - 1) && r == pw && (!primeI n || r == 1 || r == n - 1) &&
+          v == (if n ≤ 3 then 1 else if r == n - 1 then 1 else 0)
+        let mr := testLehmannBase n a
+        let mv := lehmannBase n a
+        primesVerdict line specOk (mr == r && mv == v) s!"{hexInt mr} {hexInt mv}"
       | "write", [n], neg :: k :: rest =>
         -- write(o, Lf, n) / write(o, n): text parsed strictly by the harness into (sign, p^e list), Lf, and the second text
         let fs := pairs (rest.take (2 * k.toNat))
@@ -195,13 +248,17 @@ def primesLine (line : String) : String :=
           | _ => "BAD write | " ++ line
         | _ => "BAD write | " ++ line
       | "erat", [n], k :: rest =>
-        -- Erathostene(Lf, p): the distinct prime factors of |p| in increasing order (certificate; the sieve is not modelled)
+        -- Erathostene(Lf, p): the distinct prime factors of |p| in increasing order (certificate), and the sieve itself
+        -- (Model/PrimesErat.lean: marking loop, divisibility by "last multiple marked = n", walk over the unmarked odd numbers)
         let ps := rest.map Int.toNat
         if ps.length != k.toNat then "BAD erat | " ++ line else
-        if n == 0 then primesVerdict line ps.isEmpty true "-" else
+        if n.natAbs ≥ 1073741824 then "PRE" else
+        let m := erathostene n
+        let ms := String.intercalate " " (m.map hexNat)
+        if n == 0 then primesVerdict line ps.isEmpty (m == ps) ms else
         let cof := ps.foldl (fun m p => if p < 2 then m else stripAll p (Nat.log2 m + 1) m) n.natAbs
         let sorted := (ps.zip (ps.drop 1)).all (fun ab => decide (ab.1 < ab.2))
-        primesVerdict line (ps.all primeN && sorted && ps.all (fun p => n.natAbs % p == 0) && cof == 1) true "-"
+        primesVerdict line (ps.all primeN && sorted && ps.all (fun p => n.natAbs % p == 0) && cof == 1) (m == ps) ms
       | "divinto", [n, _m], k :: rest =>
         -- divisors(L, Lf, Le), divisors(L, n) and divisors(Lf, Lf, Le) on an output list that already holds the divisors of m and junk:
         -- the list left behind is that of the input alone (`divisorsInto old fs = divisors fs`)
@@ -259,7 +316,10 @@ def primesLine (line : String) : String :=
             else if n == 0 then newp.isEmpty
             else primesOk && (key2 != "eratinto" || sorted)
           let specOk := fin.take pre.length == pre && specNew
-          if key2 == "eratinto" || n.natAbs ≤ 1 then primesVerdict line specOk true "-" else
+          if key2 == "eratinto" then
+            let m := pre ++ erathostene n          -- push_back: the old entries stay in front
+            primesVerdict line specOk (m == fin) (String.intercalate " " (m.map hexNat)) else
+          if n.natAbs ≤ 1 then primesVerdict line specOk true "-" else
           let m := set1Into (fun x => match newp.find? (fun q => decide (2 ≤ q) && x % q == 0) with | some q => q | none => x) pre n
           primesVerdict line specOk (m == some fin) (match m with | some l => String.intercalate " " (l.map hexNat) | none => "fuel")
         | _ => "BAD into | " ++ line
